@@ -9,6 +9,14 @@ for l in open('/verif/properties.jsonl'):
     p = json.loads(l)
     if p['id'] == pid:
         break
+import glob
+taken = []
+for d in sorted(glob.glob(f'/verif/seeded/{pid}-*/note.txt')):
+    first = ' '.join(open(d).read().split())[:260]
+    taken.append('- ' + os.path.basename(os.path.dirname(d)) + ': ' + first)
+TAKEN = ''
+if taken and tag != 'a':
+    TAKEN = ('\nIdeas ALREADY TAKEN by earlier rounds (do something different: another mechanism, another clause of the property, another file if possible):\n' + '\n'.join(taken) + '\n')
 print(f"""You are testing how well a property of the Python Bluetooth stack google/bumble is protected. You have your own scratch git worktree of the repository at {wt} (work ONLY there; never touch /repo or /verif, and do not read anything under /verif). Interpreter: /venv/bin/python (run things as `cd {wt} && PYTHONPATH={wt} /venv/bin/python ...`; the test suite is `cd {wt} && PYTHONPATH={wt} /venv/bin/python -m pytest -q -p no:cacheprovider -n 8 tests`, 940 tests, all pass now; check `python -c "import bumble; print(bumble.__file__)"` really points into {wt}). No network.
 
 The property (this text is all you get):
@@ -18,6 +26,7 @@ STATEMENT: {p['statement']}
 QUANTIFIED OVER: {p['quantifier']['text']}
 CODE AREA: {', '.join(p['anchors']['files'])}
 
+{TAKEN}
 Task: produce TWO different, realistic changes to bumble's source (under {wt}/bumble) each of which BREAKS this property while the code still imports and the ENTIRE existing test suite still passes (run it to be sure). Think of the kind of regression a hurried maintainer could introduce: shared mutable state, cursor/offset/boundary arithmetic, a table not updated on one path, a wrong comparison, a check dropped on one branch, state published before it is complete. Each change must need something SPECIFIC to manifest — a particular interleaving or message delay, a fault at a particular point, a multi-step sequence of operations, an unusual but legal input or configuration, or two cooperating sites that each look fine alone — NOT something ordinary use would expose at once (and not something the existing tests catch). Keep each change small (1-15 lines), and make the two changes touch different mechanisms / clauses of the property.
 
 For each change i in (1, 2) deliver, in {wt}/out/ (create it):
